@@ -32,6 +32,12 @@ TOL = 1e-12      # COMPARISON_TOLERANCE; refreshed from the extracted tables by 
 
 
 def Q(kind, vu):
+    """`[value, unit]`, or `[value, unit, other]`: the quantity is built in unit `other` and then re-expressed
+    in `unit` **in place** (`q.to(unit, inplace=True)`), the way a user normalises units after the fact"""
+    if len(vu) > 2 and vu[2] is not None and vu[2] != vu[1]:
+        q = getattr(U, kind)(float(F(vu[0]) * SI[kind][vu[1]] / SI[kind][vu[2]]), vu[2])
+        q.to(vu[1], inplace=True)
+        return q
     return getattr(U, kind)(vu[0], vu[1])
 
 
@@ -52,6 +58,39 @@ def from_si(kind, x, unit):
 
 class Built:
     pass
+
+
+class Runaway(Exception):
+    """a run recorded far more instants than T/dt allows (the check must terminate whatever the code does)"""
+
+
+def expected_steps(dt_vu, T_vu):
+    return int((F(T_vu[0]) * SI['TimeInterval'][T_vu[1]]) / (F(dt_vu[0]) * SI['TimeInterval'][dt_vu[1]]) + F(1, 10 ** 9))
+
+
+def guard_run(pt, dt_vu, T_vu, slack=64):
+    """make `pt.update_time` raise `Runaway` once the axis is `slack` instants longer than this run may make it;
+    returns a function that removes the guard (no-op if the powertrain has no `update_time`)"""
+    orig = getattr(pt, 'update_time', None)
+    if orig is None:
+        return lambda: None
+    limit = len(pt.time) + expected_steps(dt_vu, T_vu) + 1 + slack
+
+    def guarded(*a, **k):
+        if len(pt.time) >= limit:
+            raise Runaway(f'more than {limit} instants on the time axis')
+        return orig(*a, **k)
+    try:
+        pt.update_time = guarded
+    except Exception:  # noqa: BLE001
+        return lambda: None
+
+    def undo():
+        try:
+            del pt.update_time
+        except Exception:  # noqa: BLE001
+            pass
+    return undo
 
 
 def build(spec):
@@ -271,9 +310,13 @@ def simulate(spec, b=None):
                'locked_before': bool(getattr(solver, '_Solver__powertrain_is_locked', False))}
         try:
             if op['op'] == 'run':
-                solver.run(time_discretization=Q('TimeInterval', op['dt']), simulation_time=Q('TimeInterval', op['T']),
-                           motor_control=control_for(b, rules_of_op(spec, op)),
-                           stop_condition=stops.setdefault(_json.dumps(op.get('stop'), sort_keys=True), make_stop(b, op.get('stop'))))
+                undo = guard_run(pt, op['dt'], op['T'])
+                try:
+                    solver.run(time_discretization=Q('TimeInterval', op['dt']), simulation_time=Q('TimeInterval', op['T']),
+                               motor_control=control_for(b, rules_of_op(spec, op)),
+                               stop_condition=stops.setdefault(_json.dumps(op.get('stop'), sort_keys=True), make_stop(b, op.get('stop'))))
+                finally:
+                    undo()
             elif op['op'] == 'reset':
                 pt.reset()
                 lock.flags = []
@@ -286,6 +329,12 @@ def simulate(spec, b=None):
                 lock.attach(solver)
             elif op['op'] == 'pwm':
                 motor.pwm = op['v']
+            elif op['op'] == 'snap':
+                # the user looks at the results in the middle of a schedule (read-only: must not influence what follows)
+                if len(pt.time) >= 2:
+                    t0, t1 = pt.time[0], pt.time[-1]
+                    pt.snapshot(target_time=U.Time(t0.value + op.get('frac', 0.5) * (t1.to(t0.unit).value - t0.value), t0.unit),
+                                print_data=False)
         except Exception as ex:  # noqa: BLE001
             tr['error'] = (i, type(ex).__name__, str(ex)[:200])
             rec['n_after'] = len(pt.time)
